@@ -69,7 +69,7 @@ def main(tier: str) -> int:
         for beh in behs[:(1 if tier == "quick" else 4)]:
             res = writer.replay_stepwise(beh, c, real, delimited=True, frame_size=fs)
             streams.append((f"pyjelly:{uni}/fs{fs}/long-iris", res["bytes"], "rdflib" if uni.startswith("r11") else "generic"))
-    for name, c in producer.configs(rdf11=True)[:3]:
+    for name, c in producer.configs(rdf11=True)[::3]:          # small tables, one configuration per physical type
         behs, _ = producer.simulate(c, num=(3 if tier == "quick" else 15), seed=seed + 100, hist_len=12)
         for beh in behs[: (2 if tier == "quick" else 10)]:
             streams.append((f"reference:{name}", producer.to_bytes(producer.frames_of(beh["rows"]), True), "rdflib"))
